@@ -61,6 +61,10 @@ type Run struct {
 	// for goroutines whose name starts with YieldPrefix.
 	YieldAtomics bool
 	YieldPrefix  string
+	// YieldAfterUnlock makes a kernel-granted lock's release a scheduling point too: the
+	// releasing goroutine parks right after the release, so the kernel can run others
+	// between the end of a critical section and whatever the goroutine does next.
+	YieldAfterUnlock bool
 	// Poison makes ssync.Pool scribble over objects on Put.
 	Poison bool
 	// ParkSubmit makes srand Intn calls coming from batched.(*relay).submit park.
